@@ -126,7 +126,7 @@ def check (j : Json) : Except String (Option String) := do
           cmpField "genesis.collateralList" m.collateralList g.collateralList, cmpField "genesis.activeProvidersList" m.activeProvidersList g.activeProvidersList,
           cmpField "genesis.reportForms" m.reportForms g.reportForms, cmpField "genesis.attestForms" m.attestForms g.attestForms,
           cmpField "genesis.paymentGauges" m.paymentGauges g.paymentGauges, cmpField "genesis.proofList" m.proofList g.proofList,
-          cmpField "genesis.validate" (Genesis.Storage.validate g) true,
+          cmpField "genesis.validate" (Genesis.Storage.validate g) ((gj.getObjValAs? Bool "validateOk").toOption.getD true),
           (diff imported post).map (fun d => "genesis.import " ++ d), cmpField "genesis.import.params" imported.params post.params])
       | .error _ => pure none
     return allSome [diff pre post, gd]
